@@ -91,6 +91,35 @@ def rule_i1(F):
             r.bad(b.path, "scope argument", relfile(b.file), t["line"],
                   "each path segment is looked up in `%s` instead of the scope found for the previous segment: `use a::b::c` cannot resolve" % root)
     if not found:
+        # fold form: `path.iter().try_fold(scope, |current, part| get_scope_of(current, part))` - the accumulator is the closure's first
+        # parameter, the lookup's result is what the closure hands back to the fold
+        for p_ in F.paths():
+            if not p_.startswith(b.path + "::{closure"):
+                continue
+            cb = F.body(p_)
+            if cb is None or not cb.mir:
+                continue
+            cdefs = mir.Defs(cb)
+            for bi, t in mir.calls(cb):
+                if not mir.callee(t).endswith("::get_scope_of"):
+                    continue
+                owner = F.body(p_.rsplit("::{closure", 1)[0])
+                folded = False
+                for _, pt in mir.calls(owner) if owner is not None and owner.mir else []:
+                    if hir.last(mir.callee_def(pt) or "") in ("try_fold", "fold"):
+                        odefs = mir.Defs(owner)
+                        for a in pt["args"]:
+                            if mir.is_place_op(a) and any(d[2] == "assign" and d[3]["rv"]["k"] == "agg" and d[3]["rv"].get("def") == p_ for d in odefs.whole_defs(a[1][0])):
+                                folded = True
+                a = t["args"][1]
+                root, _path = mir.origin(cb, cdefs, a[1]) if mir.is_place_op(a) else ("const", [])
+                fed_back = bi in mir.back_calls(cb, cdefs, 0)
+                found = True
+                r.inst("get_scope_of in declare_import", {"form": "fold", "scope_argument_origin": root, "closure_given_to_fold": folded, "result_is_the_new_accumulator": fed_back})
+                if not (folded and root == "arg2" and fed_back):
+                    r.bad(cb.path, "scope argument", relfile(cb.file), t["line"],
+                          "each path segment is looked up in `%s` instead of the scope found for the previous segment: `use a::b::c` cannot resolve" % root)
+    if not found:
         r.missing("call to get_scope_of in declare_import")
     return r
 
